@@ -103,6 +103,16 @@ func buildWorker(v variant) (string, error) {
 		gobin = "go"
 	}
 	args := []string{"build", "-tags", v.Tags, "-o", bin}
+	if alt := os.Getenv("VERIF_REPO"); alt != "" {
+		// development aid: build against another copy of the library (a scratch worktree holding a seeded change)
+		// without touching /repo. Registered commands never set it.
+		mf := filepath.Join(verifDir, ".build", "alt.mod")
+		mod := "module verifharness\n\ngo 1.21\n\nrequire github.com/db47h/decimal v0.0.0\n\nreplace github.com/db47h/decimal => " + alt + "\n"
+		if err := os.WriteFile(mf, []byte(mod), 0o644); err != nil {
+			return "", err
+		}
+		args = append(args, "-modfile="+mf)
+	}
 	if v.Race {
 		args = append(args, "-race")
 	}
